@@ -76,7 +76,10 @@ CLAIMS = {
                 'lie inside their match, any grammar), C17_syntax_error_inside_partial (reported offset is inside the path). Translation '
                 'validation (not a theorem): the generated parser jsonpath.peg.go is compared with that interpreter on every generated '
                 'string: accept/reject, error type, position, argument; tree dumps node by node for accepted paths; near must be the rest '
-                'of the path from the reported character.',
+                'of the path from the reported character. From the path TEXT (ErrText.v): C17_garbage_after_path_from_text — a valid path '
+                'of steps and existence filters followed by a symbol that can neither continue it nor start a function, then anything, is '
+                'rejected with unrecognized input at exactly the offset of that symbol; the harness sends such texts (prefix confirmed as '
+                'Coq fchain_path) and expects that offset and the rest as excerpt.',
         'note': NOTE_COMMON + ' The translator also compares each action text of jsonpath.peg with the case body in jsonpath.peg.go.',
         'technique': 'Coq proofs over the regenerated grammar + translation validation of the generated parser against the PEG interpreter'},
     'C19': {
